@@ -145,6 +145,13 @@ Lookup(v, sym) ==    \* <<value>>, <<>> = absent ; caller checks DistinctKeys
   ELSE None
 HasKeys(v) == v.t \in {"pair", "list", "concat"}
 KeysDistinct(v) == CASE v.t = "list" -> DistinctKeys(v.v) [] v.t = "concat" -> DistinctKeys(Flat(v)) [] OTHER -> TRUE
+\* ranges hold both ends: start .. end means start, start+1, ..., end (the exclusive forms move an end inwards by one)
+IntRange(v) == v.t = "range" /\ v.l.t = "int" /\ v.r.t = "int" /\ v.r.v >= v.l.v - 1 /\ v.r.v < 2147483000 /\ v.l.v > -2147483000
+RangeLen(v) == v.r.v - v.l.v + 1
+TypeName(v) == CASE v.t = "unit" -> "Unit" [] v.t = "true" -> "True" [] v.t = "false" -> "False" [] v.t \in {"int", "float"} -> "Number" [] v.t = "char" -> "Char"
+                 [] v.t = "byte" -> "Byte" [] v.t = "sym" -> "Symbol" [] v.t = "symlist" -> "SymbolList" [] v.t = "str" -> "CharList" [] v.t = "bytes" -> "ByteList"
+                 [] v.t = "pair" -> "Pair" [] v.t = "list" -> "List" [] v.t = "concat" -> "Concatenation" [] v.t = "range" -> "Range" [] v.t = "slice" -> "Slice"
+                 [] v.t = "partial" -> "Partial" [] v.t = "expr" -> "Expression" [] v.t = "ext" -> "External" [] v.t = "type" -> "Type" [] OTHER -> "Invalid"
 \* value of  l . r  /  apply of a list or pair to r  (SKIP = not specified by the listed properties)
 AccessV(l, r) ==
   IF r.t = "int" THEN
@@ -154,14 +161,18 @@ AccessV(l, r) ==
        [] l.t = "bytes" -> IF r.v >= 0 /\ r.v < Len(l.v) THEN [t |-> "byte", v |-> l.v[r.v + 1]] ELSE U
        [] l.t = "sym" -> [t |-> "symlist", v |-> <<l, r>>]           \* symbols and integers chain into symbol lists
        [] l.t = "symlist" -> [t |-> "symlist", v |-> Append(l.v, r)]
-       [] l.t \in {"range", "slice", "concat"} -> SKIP
+       [] l.t = "concat" -> (LET f == Flat(l) IN IF r.v >= 0 /\ r.v < Len(f) THEN f[r.v + 1] ELSE U)     \* a concatenation is the sequence of the items of both sides
+       [] l.t = "range" -> (IF ~IntRange(l) THEN SKIP ELSE IF r.v >= 0 /\ r.v < RangeLen(l) THEN MkInt(l.l.v + r.v) ELSE U)
+       [] l.t = "slice" -> (IF ~(l.l.t = "list" /\ IntRange(l.r) /\ l.r.l.v >= 0) THEN SKIP
+                            ELSE IF r.v >= 0 /\ r.v < RangeLen(l.r) /\ l.r.l.v + r.v < Len(l.l.v) THEN l.l.v[l.r.l.v + r.v + 1] ELSE U)
        [] OTHER -> U
   ELSE IF r.t = "sym" THEN
      CASE l.t = "pair" -> (LET x == Lookup(l, r) IN IF x = None THEN U ELSE x[1])
        [] l.t = "list" -> IF ~DistinctKeys(l.v) THEN SKIP ELSE (LET x == Lookup(l, r) IN IF x = None THEN U ELSE x[1])
        [] l.t \in {"sym", "int"} -> [t |-> "symlist", v |-> <<l, r>>]
        [] l.t = "symlist" -> [t |-> "symlist", v |-> Append(l.v, r)]
-       [] l.t \in {"float", "range", "slice", "concat", "str", "bytes"} -> SKIP
+       [] l.t = "concat" -> (LET f == Flat(l) IN IF ~DistinctKeys(f) THEN SKIP ELSE LET x == LookupIn(f, r, 1) IN IF x = None THEN U ELSE x[1])
+       [] l.t \in {"float", "range", "slice", "str", "bytes"} -> SKIP
        [] OTHER -> U
   ELSE IF r.t = "float" THEN SKIP
   ELSE IF r.t = "symlist" THEN
